@@ -24,6 +24,7 @@ def _path_nodes(tree, node_id):
 def _finding_of(tree, node_id):
     """the open known finding whose class the element belongs to, or None.
     KF-C13-b: an element on the path (itself or an ancestor) is a Dict/Compound field named ''.
+    KF-C13-c: an element on the path is stored in its Dict under a key different from its name.
     KF-C13-a: the field name of a proper ancestor ends with a backslash."""
     chain = _path_nodes(tree, node_id)
     for i, (parent, child) in enumerate(chain):
@@ -31,6 +32,11 @@ def _finding_of(tree, node_id):
             continue
         if child["name"] == "":
             return "KF-C13-b"
+    for i, (parent, child) in enumerate(chain):
+        if parent["k"] not in ("d", "c"):
+            continue
+        if child.get("key", child["name"]) != child["name"]:
+            return "KF-C13-c"
     for i, (parent, child) in enumerate(chain):
         if parent["k"] not in ("d", "c"):
             continue
@@ -55,6 +61,7 @@ class C13(Property):
         "Flatland.C13.Proofs.C13_full_fails",
         "Flatland.C13.Proofs.C13_full_fails_backslash",
         "Flatland.C13.Proofs.C13_backslash_dot_ok",
+        "Flatland.C13.Proofs.C13_full_fails_key",
         "Flatland.C13.Proofs.find_one_fq",
         "Flatland.C13.Proofs.fqName_injective",
         "Flatland.Path.Lemmas.tokenize_segs",
@@ -67,7 +74,8 @@ class C13(Property):
         "element identity = position in a functional tree (parents/root are derived; pointer upkeep is C08's subject)",
     ]
     assumptions = [
-        "Dict field names are unique strings (Dict.of enforces uniqueness); unnamed Dict fields are out of scope",
+        "Dict keys are unique strings (they are dict keys); unnamed Dict fields are out of scope; that a child's key "
+        "equals its name is NOT assumed (hypothesis [KeyIsName], KF-C13-c)",
         "a sequence never has 10^4300 or more members (int() digit limit)",
     ]
     level_text = "proof"
@@ -76,7 +84,10 @@ class C13(Property):
         "every position that is PathOK (find_fq, find_one_fq; PathOK follows from spec B's `addressable` plus the "
         "library's tree invariants, find_fq_addressable), including the tokenizer on the emitted path "
         "(tokenize_fqName) and int(str(i)) = i (pyInt_natStr); the unrestricted law is refuted for the code as it is "
-        "by two witnesses (C13_full_fails: field named '', C13_full_fails_backslash: field named 'a\\.b'). Tied to "
+"by three witnesses that satisfy every library invariant (C13_full_fails: field named ''; "
+        "C13_full_fails_backslash: the child of a Dict named 'y\\\\'; C13_full_fails_key: an element stored under a key "
+        "different from its name, so `key = name` is an explicit hypothesis [KeyIsName] of `addressable`, not part of "
+        "TreeInv); C13_backslash_dot_ok: the field 'a\\\\.b' fixed by b49b3eb now satisfies the law. Tied to "
         "the code by correspondence: fq_name()/find() of every element of random and exhaustively enumerated trees.")
     technique = "Lean 4 model + inverse-law proof; differential correspondence; exhaustive two-level names"
     exhaustive_note = ""
@@ -142,6 +153,16 @@ class C13(Property):
             lst = cm.number({"k": "l", "name": "l", "member": {"k": "s", "name": None}, "kids": [_leaf(None) for _ in range(4)]})
             h = [{"at": [], "op": "pop", "i": i}]
             out.append(self._case(cm.simulate(lst, h), [0], lst, h))
+        # open KF-C13-c (= the KF-C10-a state): SparseDict item assignment of an instance of a renamed subclass
+        sdn = {"k": "d", "name": "sd", "sparse": [{"k": "s", "name": "z"}],
+               "fields": [{"k": "s", "name": "x"}, {"k": "s", "name": "z"}], "kids": [_leaf("x")]}
+        tk = cm.number({"k": "d", "name": "r", "kids": [sdn]})
+        newx = dict(_leaf("y"), id=cm._max_id(tk) + 1, key="x")
+        hk = [{"at": [0], "op": "setfield", "key": "x", "nodes": [newx]}]
+        out.append(self._case(cm.simulate(tk, hk), [0], tk, hk))
+        newz = dict(_leaf("x"), id=cm._max_id(tk) + 2, key="z")     # named like the sibling key: finds the wrong element
+        hk2 = [{"at": [0], "op": "setfield", "key": "z", "nodes": [newz]}]
+        out.append(self._case(cm.simulate(tk, hk2), [0, 2], tk, hk2))
         # open KF-C13-b: empty field name
         t3 = cm.number({"k": "d", "name": "root", "kids": [_leaf(""), {"k": "d", "name": "a", "kids": [_leaf("")]}]})
         out.append(self._case(t3, [0, 2]))
@@ -185,7 +206,8 @@ class C13(Property):
             init, history = None, None
             if rng.random() < 0.45:
                 # the tree is reached through a history of list mutations (public List API)
-                final, history = cm.rand_history(rng, tree, rng.choice([1, 1, 2, 3, 4]))
+                final, history = cm.rand_history(rng, tree, rng.choice([1, 1, 2, 3, 4]),
+                                                 setfield=rng.choice([0.0, 0.0, 0.3]))
                 if history:
                     init, tree = tree, final
             nodes = list(cm.preorder(tree))
@@ -297,6 +319,8 @@ class C13(Property):
         t.append("history=%d" % len(hist))
         for op in hist:
             t.append("listop:%s" % op["op"])
+            if op["op"] == "setfield":
+                continue
             if op.get("i", 0) < -1:
                 t.append("listop:negative-index")
             if len(op["at"]) >= 2:
@@ -339,7 +363,8 @@ C13.rule = (
     "'..', 'a/b', '[1:2]', 'x/..'), backslashes (inside, before '.'/']', doubled, trailing), non-ASCII/whitespace, empty; 50% "
     "of trees only use names the theorem covers; 45% of the trees are reached through a history of 1-4 list mutations "
     "(pop incl. negative indexes, insert, del item/slice incl. extended and negative-step slices, slice assignment, "
-    "reverse, sort, remove, +=, append on random List nodes at any depth, through the public List API; the model sees "
+    "reverse, sort, remove, +=, append on random List nodes at any depth, and SparseDict item assignment of an instance "
+    "of a renamed subclass of the field schema, through the public API; the model sees "
     "the resulting tree, whose slot names are positional); every element's fq_name() is evaluated from the root and 3 random "
     "elements; non-trivial = tree of >= 3 elements")
 
